@@ -8,6 +8,7 @@ have different digests, permutations equal digests, JSON round trips, stat-chang
 
 from __future__ import annotations
 
+import attrs
 import hashlib
 import os
 import shutil
@@ -401,6 +402,23 @@ async def search(ctx):
                 ctx.finding(Finding(PID, "filehash-json-roundtrip", "FileHash does not survive to_json/from_json",
                                     {"hash": [h.digest.hex(), h.mode, h.mtime, h.size, h.inode],
                                      "back": [back.digest.hex(), back.mode, back.mtime, back.size, back.inode]}))
+        # ... and for a history of saves: a hash that is `==` to one saved before (same digest, mode and size)
+        # but carries another stat record must come back with its own record, whatever was saved earlier
+        for h in c["files"].values():
+            if h.is_unknown:
+                continue
+            twins = [attrs.evolve(h, mtime=h.mtime + 1.5, inode=h.inode + 7), attrs.evolve(h, mtime=h.mtime - 0.25),
+                     h, attrs.evolve(h, inode=h.inode + 1)]
+            for t in twins:
+                back = FileHash.from_json(t.to_json())
+                kinds["json-after-equal-hash"] = kinds.get("json-after-equal-hash", 0) + 1
+                if not (back == t and back.mtime == t.mtime and back.inode == t.inode):
+                    ctx.finding(Finding(PID, "filehash-json-roundtrip:after-an-equal-hash",
+                                        "a FileHash saved after an equal one (same content, other stat record) does not "
+                                        "come back unchanged",
+                                        {"hash": [t.digest.hex(), t.mode, t.mtime, t.size, t.inode],
+                                         "back": [back.digest.hex(), back.mode, back.mtime, back.size, back.inode],
+                                         "first_saved": [h.digest.hex(), h.mode, h.mtime, h.size, h.inode]}))
         for explained in (False, True):
             sh = StepHash.from_inp(c["label"], c["files"], c["envs"], explained=explained, shell=c["shell"],
                                    env_overrides=c["ovr"]).with_out_hashes(c["files"])
